@@ -394,3 +394,103 @@ Lemma lifo_progress c ks st evs s :
 Proof.
   intros H. apply lifo_admissible. eapply inv_run; [apply inv_init | exact H].
 Qed.
+
+(* generic counting consequence of the invariant *)
+Lemma inv_count c st : Inv c st ->
+  (length (free st) + length (filter (fun a => lm_mem a (leases st)) (assignable_list c))
+   = length (assignable_list c))%nat.
+Proof.
+  intros [ND M].
+  rewrite <- (filter_partition_length (fun a => lm_mem a (leases st)) (assignable_list c)).
+  rewrite Nat.add_comm. f_equal.
+  apply Permutation_length. apply NoDup_Permutation; [exact ND | |].
+  - apply NoDup_filter, NoDup_filter, range_addrs_NoDup.
+  - intros a. rewrite M. unfold assignable_list. rewrite !filter_In, range_addrs_In.
+    unfold assignable. rewrite andb_true_iff, !negb_true_iff, lm_mem_lookup. tauto.
+Qed.
+
+(* ---------------------------------------------------------------- the range loop *)
+Set Default Timeout 60.
+Lemma xz_loops hi : forall fuel n, range_loop false fuel (XZ n) hi = None.
+Proof.
+  induction fuel as [|k IH]; intros n; [reflexivity|].
+  cbn [range_loop xvalid xle negb orb andb xnext].
+  destruct (N.eqb n (fam_max V6)); rewrite IH; reflexivity.
+Qed.
+
+(* as found: when the range end is the last address of its family, or the range runs from IPv4 to
+   IPv6, the loop condition never becomes false *)
+Lemma range_loop_step g k x hi :
+  range_loop g (S k) x hi =
+  if (negb g || xvalid x) && xle x hi
+  then match range_loop g k (xnext x) hi with Some l => Some (x :: l) | None => None end
+  else Some [].
+Proof. reflexivity. Qed.
+
+Lemma xle_same f n h : xle (XA (f, n)) (f, h) = N.leb n h.
+Proof. destruct f; reflexivity. Qed.
+
+Lemma range_loop_diverges hi : forall fuel lo,
+  snd lo <= fam_max (fst lo) -> xle (XA lo) hi = true ->
+  fam_eqb (fst lo) (fst hi) && N.ltb (snd hi) (fam_max (fst hi)) = false ->
+  range_loop false fuel (XA lo) hi = None.
+Proof.
+  destruct hi as [fh h].
+  induction fuel as [|k IH]; intros [f n] Hn Hle Hc; [reflexivity|].
+  rewrite range_loop_step, Hle.
+  change (negb false || xvalid (XA (f, n))) with true. cbv beta iota. rewrite andb_true_l.
+  change (xnext (XA (f, n))) with (if N.eqb n (fam_max f) then XZ 0 else XA (f, n + 1)).
+  assert (Hn' : n <= fam_max f) by exact Hn.
+  destruct (N.eqb_spec n (fam_max f)) as [E|E]; [rewrite xz_loops; reflexivity|].
+  rewrite IH; [reflexivity | | | exact Hc].
+  - change (n + 1 <= fam_max f). lia.
+  - destruct f, fh.
+    + rewrite xle_same. assert (Hc' : N.ltb h (fam_max V4) = false) by exact Hc.
+      apply N.leb_le. apply N.ltb_ge in Hc'. lia.
+    + reflexivity.
+    + discriminate Hle.
+    + rewrite xle_same. assert (Hc' : N.ltb h (fam_max V6) = false) by exact Hc.
+      apply N.leb_le. apply N.ltb_ge in Hc'. lia.
+Qed.
+
+Lemma range_terminates_false_diverges v lo hi :
+  snd lo <= fam_max (fst lo) -> range_terminates v lo hi = false ->
+  forall fuel, range_loop false fuel (XA lo) hi = None.
+Proof.
+  unfold range_terminates. intros Hn H fuel.
+  apply orb_false_iff in H. destruct H as [H H3]. apply orb_false_iff in H. destruct H as [_ H2].
+  apply negb_false_iff in H2. apply range_loop_diverges; assumption.
+Qed.
+
+Lemma seq_map_shift (g : N -> addr) lo k :
+  map (fun i => g (lo + N.of_nat i)) (seq 1 k) = map (fun i => g (lo + 1 + N.of_nat i)) (seq 0 k).
+Proof.
+  rewrite <- seq_shift, map_map. apply map_ext. intros i. f_equal. lia.
+Qed.
+
+(* same family, and either the guarded (repaired) condition or a range end below the last address:
+   the loop returns exactly the addresses lo..hi *)
+Lemma range_loop_terminates g f hi : hi <= fam_max f -> (g = true \/ hi < fam_max f) ->
+  forall k lo, k = N.to_nat (hi + 1 - lo) ->
+  range_loop g (S k) (XA (f, lo)) (f, hi) =
+  Some (map XA (map (fun i => (f, lo + N.of_nat i)) (seq 0%nat k))).
+Proof.
+  intros Hh Hg. induction k as [|k IH]; intros lo Hk.
+  - rewrite range_loop_step, xle_same.
+    assert (N.leb lo hi = false) as E by (apply N.leb_gt; lia).
+    rewrite E, andb_false_r. reflexivity.
+  - assert (Hlo : lo <= hi) by lia.
+    rewrite range_loop_step, xle_same.
+    assert (N.leb lo hi = true) as E by (apply N.leb_le; exact Hlo).
+    rewrite E. change (xvalid (XA (f, lo))) with true. rewrite orb_true_r, andb_true_l.
+    change (xnext (XA (f, lo))) with (if N.eqb lo (fam_max f) then XZ 0 else XA (f, lo + 1)).
+    destruct (N.eqb_spec lo (fam_max f)) as [El|El].
+    + (* lo = hi = last address: only the guarded loop gets here *)
+      assert (hi = fam_max f) by lia. destruct Hg as [->|Hg]; [|lia].
+      assert (k = 0%nat) by lia. subst k.
+      rewrite range_loop_step. change (negb true || xvalid (XZ 0)) with false. rewrite andb_false_l.
+      cbn [seq map]. rewrite N.add_0_r. reflexivity.
+    + rewrite (IH (lo + 1)) by lia.
+      cbn [seq map]. rewrite N.add_0_r. f_equal. f_equal. f_equal.
+      symmetry. apply (seq_map_shift (fun n => (f, n)) lo k).
+Qed.
